@@ -144,8 +144,8 @@ PROPS = {
         'rule': T_RULE + ('Oracle: every block returned by any thread is aligned, in range, equal to the target if one was given, and '
                           'disjoint from every block held by any thread at that moment; at the quiescent end the metadata equals the '
                           'blocks handed out. Sequential part: ' + S_RULE),
-        'partial': ('all sequential histories proved at the public interface; every interleaving of any number of threads proved for the whole lower allocator '
-                    '(bitfields, counters, markers; Lower::get/get_at/put); the upper level (tree counters, reservations) under interleavings explored by scheduler-controlled runs'),
+        'partial': ('all sequential histories proved at the public interface; every interleaving of any number of threads proved at the public interface '
+                    '(LLFree::get every path, LLFree::put at allocation order, drain; disjoint, aligned, in range, allocated); partial frees under interleavings explored by scheduler-controlled runs'),
         'assumptions': ['hooked atomics: a yield point before every Atom access; compare_exchange never fails spuriously (x86-64/strong CAS)'],
     },
     'C02': {
@@ -197,8 +197,8 @@ PROPS = {
                           'held by a completed call must be allocated and freeable at its order, stats/tree_stats must agree (validate), and at most '
                           'the frames of the calls in flight may be missing. Sequential: recover at quiescent points compared with the model.'),
         'partial': ('recovery proved from every state satisfying the weak invariant (re-establishes both invariants, keeps the allocation status of every '
-                    'frame); every state of every interleaving of lower-level calls (frees at allocation order) proved to be such a state with all holdings recorded; '
-                    'crash states inside upper-level sequences with partial frees of huge allocations explored, not proved'),
+                    'frame); every state of every interleaving of public-interface calls (frees at allocation order) proved to be such a state with all holdings recorded; '
+                    'crash states of sequences with partial frees of huge allocations explored, not proved'),
         'assumptions': ['crash = loss of everything but the lower buffer at an atomic-access boundary (no torn 64-bit writes, no reordering of persisted stores)'],
     },
     'C06': {
